@@ -109,8 +109,11 @@ def run(ctx):
         default_complex = (method == 'complex' and any(c.startswith('n=1/order=2') or c.startswith('n=1/order=1')
                                                        or c.startswith('n=1/order=3') for c in cfgs))
         for dim in dims:
-            res = facts.stencil(fn, dim)
-            label = '%s/%s/dim=%s (%d configuration classes, e.g. %s)' % (core, method, dim, len(cfgs), cfgs[0])
+          res0 = facts.stencil(fn, dim)
+          # every outcome of a branch on the values of f gives its own set of evaluation points: each one is judged
+          for alt_text, res in [('', res0)] + list(res0.alternatives):
+            label = '%s/%s/dim=%s (%d configuration classes, e.g. %s)%s' % (core, method, dim, len(cfgs), cfgs[0],
+                                                                           ('/when ' + alt_text) if alt_text else '')
             offs = [o for o in offsets_of(res)]
             infos = [(o, classify_offset(o[0])) for o in offs]
             fact = {'points': [tuple(repr(p) for p in o[0]) for o in offs][:12], 'n_points': len(offs)}
@@ -199,8 +202,12 @@ def evalsites(ctx):
                 sites[-1] = (sites[-1][0], P.calls[-1][0])
                 return r
             obj.attrs['fun'] = traced
-            I.getattr(obj, '_derivative')(x, (), {})
             label = '%s/%s/n=%s/full_output=%s' % (cls, method, n, full_output)
+            try:
+                I.getattr(obj, '_derivative')(x, (), {})
+            except AnalysisError as exc:
+                rep.undecided('R-EVALSITES', 'core.%s._derivative' % cls, exc, label)
+                continue
             bad = []
             for site, off in sites:
                 at_x = all(p.is_zero() for p in off)
@@ -241,6 +248,9 @@ def after_setter(ctx):
                 rep.violation('R-ADMISSIBLE-SETTER', 'core.%s.method (setter)' % cls, core_mod.relpath,
                               {'raises': exc.exc_name, 'message': exc.msg[:100]}, 'the call succeeds', '%s/%s->%s' % (cls, m1, m2),
                               key='setter raises')
+                continue
+            except AnalysisError as exc:
+                rep.undecided('R-ADMISSIBLE-SETTER', 'core.%s.method (setter)' % cls, exc, '%s/%s->%s' % (cls, m1, m2))
                 continue
             offs = []
             seen = set()
